@@ -75,3 +75,11 @@ Proof. exact soc_window. Qed.
 Theorem C09_soc_window_refuted_beyond_bound : exists r', res_solve_eta res_w 1000 0 1 1 = Ok r' /\
   rs_min_soc rs_w <= rs_soc rs_w <= rs_max_soc rs_w /\ rs_soc (res_state r') < rs_min_soc rs_w - / 2.
 Proof. exact soc_window_refuted. Qed.
+
+(* tractive power is within the limit the locomotive published for the step (the code's own almost_le, 1e-8) - also
+   for a locomotive simulated on its own (since the /repo fix that checks the demand at locomotive level) *)
+Theorem C09_tractive_power_within_published_limit : forall (l l' : Loco (F:=R)) pwr dt on,
+  lc_assert_limits l = true -> loco_sim_solve_step l pwr dt on = Ok l' ->
+  exists l1, loco_pre_step l dt on = Ok l1 /\
+    (pwr < ls_pwr_out_max (lc_state l1) * (1 + / 100000000) \/ pwr < ls_pwr_out_max (lc_state l1) + / 100000000).
+Proof. exact loco_step_within_published. Qed.
